@@ -74,6 +74,9 @@ class TreeGen:
         if c == 3:
             s = f'  .fill {rnd.randrange(1, 5)}, {rnd.randrange(0, 256)}'
             return s, s
+        if c == 5 and rnd.random() < 0.3 and self.info['addr_bits'] >= 12:
+            s = f'  .align {rnd.choice([2, 4, 8, 16])}'
+            return s, s
         if c == 4 and self.cross_defs:
             s = '  .byte ' + rnd.choice(['SYM0', 'KG0', 'SYM0 + 1', 'LSB(KG0 + SYM0)'])
             return s, s
